@@ -70,6 +70,11 @@ impl InputPlugin for GridSearchPlugin {
                         instance
                     })
                     .collect();
+                if result.is_empty() {
+                    return Err(InputPluginError::InputPluginFailed(String::from(
+                        "grid search section has an array-valued field with no values",
+                    )));
+                }
 
                 let mut replacement = serde_json::json![result];
                 std::mem::swap(&mut replacement, input);
